@@ -2,11 +2,14 @@ import ScVerif.Base.Line
 import ScVerif.C15.Paging
 import ScVerif.C15.Store
 import ScVerif.C15.Records
+import ScVerif.C15.Icpt
 /-! Driver handler for C15: the state is the collection as records (`keys` line: its ids in ANY order, each
-record carrying its id as key field; `sop` lines: the creation / update / deletion operations of `Records.lean`)
-and what the List RPC pages over, `rlisting` (the records sorted by id, seen through their key field).
+record carrying its id as key field and stored under the intercepted id; `sop` lines: the creation / update /
+deletion operations of `Records.lean` / `Icpt.lean`), the collection's id interceptor, and what the List RPCs page
+over, `flisting` (the key fields in ascending order); `listing` is `Collection.List` (`rlisting`).
 
 ```
+icpt <id|lower|upper>              → ok                (resource.WithIDInterceptor of the collection, for the lines that follow)
 keys <hex,hex,…|->                 → ok <n>            (ids in insertion order; the model sorts)
 sop add <hex|-> <hex|->            → ok <hex> | exists | aborted     (id or "-" = empty: generate; candidate id)
 sop ensure <hex|->                 → ok <hex> | rejected
@@ -14,7 +17,7 @@ sop updm <hex|-> <0|1> <n|k|x>     → ok <hex> | notfound | rejected   (Update*
 sop updi <hex|-> <hex|-> <0|1> <n|k|x>  → the same for UpdatePublication(id, message carrying that Id)
 sop delete <hex|-> <0|1>           → ok <hex> | notfound               (1: allow-missing)
 sop initial <hex|->                → ok <hex> | exists | rejected      (a WithInitial… record)
-listing                            → <hex,…|->
+listing                            → <hex,…|->        (Collection.List: items by storage id, shown by key field)
 page <gt|ge> <size> <E|B|K<hex>>   → ok <hex,…|-> <N|T<hex>> <total> | err <Code> | panic
 codec <gt|ge> <hex bytes>           → <first page> | <page after its token>   or   invalid (not UTF-8)
 waste <n> <size> <E|B|I<int>> [vis] → ok <i,…|-> <N|T<int>> <total>   | err <Code> | panic   (vis=0: ids hidden, items print as _)
@@ -91,21 +94,30 @@ def showRes : StoreRes → String
 /-- Driver state: the collection's records and what the List RPC sees of them (`rlisting`, recomputed after every change). -/
 structure St where
   recs : RStore := []
+  /-- what the List RPCs page over: the key fields in ascending order (`flisting`) -/
   keys : List String := []
+  /-- the collection's id interceptor -/
+  f : String → String := id
 
 def St.apply (st : St) (op : RecOp) : St × String :=
-  let r := st.recs.step op
-  ({ recs := r.1, keys := rlisting r.1 }, showRes r.2)
+  let r := st.recs.istep st.f op
+  ({ st with recs := r.1, keys := flisting r.1 }, showRes r.2)
+
+def parseIcpt? (s : String) : Option (String → String) :=
+  if s = "id" then some id else if s = "lower" then some asciiLower else if s = "upper" then some asciiUpper else none
 
 def parseMask? (s : String) : Option Mask :=
   if s = "n" then some .none else if s = "k" then some .withKey else if s = "x" then some .withoutKey else none
 
 def stepSt (st : St) (toks : List String) : Option (St × String) :=
   match toks with
+  | ["icpt", name] => do
+    let f ← parseIcpt? name
+    pure ({ st with f := f }, "ok")
   | ["keys", ks] => do
     let l ← parseKeys? ks
-    let recs : RStore := l.map fun id => { id := id, key := id }
-    pure ({ recs := recs, keys := rlisting recs }, s!"ok {l.length}")
+    let recs : RStore := l.map fun id => { id := st.f id, key := id }
+    pure ({ st with recs := recs, keys := flisting recs }, s!"ok {l.length}")
   | ["sop", "add", id, cand] => do
     let id ← unhexId? id
     let cand ← unhexId? cand
@@ -131,7 +143,7 @@ def stepSt (st : St) (toks : List String) : Option (St × String) :=
   | ["sop", "initial", id] => do
     let id ← unhexId? id
     pure (st.apply (.initial id))
-  | ["listing"] => pure (st, showKeys st.keys)
+  | ["listing"] => pure (st, showKeys (rlisting st.recs))
   | _ => none
 
 def showWShown : Out WShown → String
